@@ -30,6 +30,15 @@ def family (kind : String) (n : Nat) : Option Bytes :=
     | "bigvalues" => some (((List.range (max (n / 65535) 1)).map fun i => tok 0x41 (ascii s!"t{i}") (List.replicate 65535 0x61)).flatten)
     | "collset" => some (tok 0x34 (ascii "c") [] ++ tok 0x37 [] [] ++
                          rep n (tok 0x34 [] [] ++ tok 0x4a [] (ascii "m") ++ tok 0x22 [] [1] ++ tok 0x37 [] []))
+    | "deepsets" => some (tok 0x34 (ascii "c") [] ++ rep (n - 1) (tok 0x4a [] (ascii "m") ++ tok 0x34 [] []) ++
+                          tok 0x4a [] (ascii "m") ++ tok 0x21 [] [0, 0, 0, 1] ++ tok 0x21 [] [0, 0, 0, 2] ++
+                          ((List.range n).map fun i => tok 0x37 [] [] ++ (if i + 1 < n then tok 0x21 [] [0, 0, 0, 3] else [])).flatten)
+    | "badnames" =>
+        let l := min 16000 (max n 1)
+        some (rep (max (n / l) 1) (tok 0x21 (List.replicate l 0xff) [0, 0, 0, 1]))
+    | "badtext" =>
+        let l := min 60000 (max n 1)
+        some (((List.range (max (n / l) 1)).map fun i => tok 0x41 (ascii s!"t{i}") (List.replicate l 0xc3)).flatten)
     | _ => none
   body.map fun b => header ++ [1] ++ b ++ [3]
 
